@@ -124,15 +124,17 @@ CATEGORY = {'C08': 'fault_enumeration', 'C09': 'fault_enumeration'}
 
 EXTRA = {
     'C01': '; failing decodes/encodes interleaved with every case, caller-'
-           'side in-place changes, shards under -W error / DEBUG logging / '
-           '-O / foreign environment',
+           'side in-place changes, neighbouring-type probes per argument, '
+           'round trip at the deepest nesting the encoder accepts, shards '
+           'under -W error / DEBUG logging / -O / foreign environment',
     'C02': '; failing operations interleaved, in-place change of the '
            'headers table then re-marshal, configuration shards',
     'C03': '; poisoned-table fail-then-retry on the same object, five '
            'narrow decimal contexts, configuration shards',
     'C04': '; refused marshals interleaved, configuration shards',
     'C05': '; failing decodes (incl. 48-level deep faults) interleaved, '
-           'frames above the default frame-max, configuration shards',
+           'frames above the default frame-max, a reference-written session '
+           'of real broker / client frames, configuration shards',
     'C06': '; frames above frame-max in streams, one bytearray consumed in '
            'place, every successful decode of a mutated input repeated with '
            'the bytes after its consumed count removed / replaced, '
@@ -159,10 +161,12 @@ EXTRA = {
            'k-th argument faults, client subclasses) -> walk again; '
            'foreign-environment shard',
     'C16': '; failure-storm amplification, cold concurrent first use of '
-           'every class, long pauses, toggle by assignment (module-state '
-           'changes are evidence, not verdicts)',
+           'every class, long pauses, toggle by assignment, handshakes of '
+           '28 broker products / versions and real session traffic in the '
+           'histories (module-state changes are evidence, not verdicts)',
     'C17': '; first access from 8 threads at once, walk -> client '
-           'subclasses / raise / pickle -> walk again, configuration shards',
+           'subclasses / raise / pickle / public helper calls -> walk again, '
+           'configuration shards',
     'C18': '; refused marshals interleaved, configuration shards',
     'C19': '; objects printed before each evaluation, non-argument and '
            'foreign argument names, configuration shards',
